@@ -159,6 +159,37 @@ Theorem C14_run_history : forall v, forallb (fun m => wf (m_frags m)) (map dec_m
 Proof. exact run_history. Qed.
 Print Assumptions C14_run_history.
 
+(* HISTORIES ON ONE MOLECULE OBJECT: grown by add_fragment / add_molecule / _add_fragment and finalised any number of
+   times.  The k-th finalise answers with the calls computed from ALL fragments held at that moment (so every theorem
+   above applies to every finalise), and methylation_call_dict then holds exactly that answer *)
+Theorem C14_molecule_history : forall ref pre st c post,
+  nth_error (snd (mol_history ref st (pre ++ MFin c :: post))) (nfin pre) =
+  Some (ms_frags st ++ added pre, calls c ref (ms_frags st ++ added pre)).
+Proof. exact mol_history_fin. Qed.
+Print Assumptions C14_molecule_history.
+
+Theorem C14_molecule_history_dict : forall ref pre st c cs,
+  calls c ref (ms_frags st ++ added pre) = OK cs ->
+  ms_dict (fst (mol_history ref st (pre ++ [MFin c]))) = Some cs.
+Proof. exact mol_history_dict. Qed.
+Print Assumptions C14_molecule_history_dict.
+
+Theorem C14_molecule_history_shape : forall ref ops st,
+  ms_frags (fst (mol_history ref st ops)) = ms_frags st ++ added ops /\
+  length (snd (mol_history ref st ops)) = nfin ops.
+Proof. exact (fun ref ops st => conj (mol_history_frags ref ops st) (mol_history_outputs_len ref ops st)). Qed.
+Print Assumptions C14_molecule_history_shape.
+
+(* non-vacuity: R1 alone (single-end, unsafe calling) reads C5 unconverted -> z; after add_molecule of two single-end
+   fragments that read T there, the second finalise says Z *)
+Example C14_molecule_history_example :
+  map snd (snd (mol_history ex_ref (mkMS [] None)
+     [MAdd [(Some ex_r1, None)]; MFin ex_cfg_u; MMerge [(Some ex_r1t, None); (Some ex_r1t, None)]; MFin ex_cfg_u])) =
+    [OK [mkCall 1 cT c_Z 1; mkCall 4 cC c_x 1; mkCall 5 cC c_z 1];
+     OK [mkCall 1 cT c_Z 3; mkCall 4 cC c_x 3; mkCall 5 cT c_Z 2]].
+Proof. vm_compute. reflexivity. Qed.
+Print Assumptions C14_molecule_history_example.
+
 (* non-vacuity of the history theorems: the example molecule after a molecule at the SAME coordinates on another
    contig (TTGACAGGNCA: position 1 is not a C there, C4 is CAG) still gets its own contig's letters *)
 Example C14_history_example :
